@@ -5,6 +5,8 @@ package hsms
 import (
 	"context"
 	"errors"
+	"net"
+	"time"
 
 	"github.com/arloliu/go-secs/v2/secs2"
 )
@@ -165,4 +167,128 @@ func VerifC09_PooledStateVT() {
 	vsymReach("second-send-timed-out")
 	vsymAssert(r2 == nil, "no-reply-from-the-earlier-generation")
 	vsymAssert(errors.Is(err2, ErrT3Timeout), "silent-peer-means-T3")
+}
+
+// VerifC09_RaceVT: the generation ends at an ARBITRARY instant of a send. A sender goroutine makes
+// one call {reply-expected send, synchronous no-reply send, asynchronous send (with the
+// generation's drain loop running)}; a second goroutine, at a preemption placed before each call
+// instruction the sender (and the drain loop) executes or when they first block, ends generation 1
+// (context first, socket first, or the context only after the successor is up), publishes generation 2 with its own socket and delivers, on
+// generation 2, a secondary carrying the system bytes the send draws. Whatever the instant:
+// the frame is transmitted at most once and on ONE socket; a send whose frame went out on
+// generation 1 is never completed by generation 2's reply, it ends promptly with the closed error;
+// nothing queued on generation 1 is ever written on generation 2's socket, also not later.
+func VerifC09_RaceVT() {
+	vsymExpect("old-generation")
+	vsymExpect("new-generation")
+	vsymExpect("not-sent")
+	K := 200
+	v := newVConnection(SelectedState)
+	v.tr.failClosed = true
+	e1 := v.e
+	c1 := v.conn
+	kind := vsymChoose(3) // 0 W-bit send, 1 sync no-reply send, 2 async send
+	order := vsymChoose(3) // 0 context then socket, 1 socket then context, 2 socket, successor published, THEN context
+	t3 := v.c.cfg.Load().timers.T3
+	var sys [4]byte
+	nx := v.c.sysGen.n.Load() + 1
+	sys[0], sys[1], sys[2], sys[3] = byte(nx>>24), byte(nx>>16), byte(nx>>8), byte(nx)
+	k := vsymChoose(K)
+	var c2 *vnc
+	var reply *DataMessage
+	var err error
+	done := make(chan int, 2)
+	if kind == 2 {
+		e1.spawn(vlog{}, "sender", func(ctx context.Context) { v.c.drainSendCh(ctx, e1) })
+	}
+	queuedOn1AtSwitch := -1
+	crossWrite := false
+	v.tr.onWrite = func(w vwrite) {
+		// a frame going out on generation 2's socket while its transaction sits in generation 1's registry
+		if c2 != nil && w.conn == net.Conn(c2) && len(w.bytes) >= 14 && w.bytes[9] == 0 && e1.replies.len() > 0 {
+			crossWrite = true
+		}
+	}
+	vsymPreemptAt(k)
+	go func() {
+		switch kind {
+		case 0:
+			reply, err = v.c.SendDataMessage(context.Background(), 1, 1, true, secs2.A("p"))
+		case 1:
+			reply, err = v.c.SendDataMessage(context.Background(), 1, 1, false, secs2.A("p"))
+		default:
+			err = v.c.SendDataMessageAsync(context.Background(), 1, 1, false, secs2.A("p"))
+		}
+		done <- 0
+	}()
+	go func() {
+		switch order {
+		case 0:
+			e1.cancel()
+			e1.closeSocket()
+		case 1:
+			e1.closeSocket()
+			e1.cancel()
+		default:
+			e1.closeSocket()
+		}
+		_, c2 = c09NextGen(v)
+		queuedOn1AtSwitch = len(e1.sendCh)
+		_ = v.c.DeliverOwnedFrame(dataFrame(0xFFFF, 1, 2, sys, nil))
+		if order == 2 {
+			e1.cancel()
+		}
+		done <- 1
+	}()
+	<-done
+	<-done
+	vsymPreemptAt(-1)
+	vsymPreemptCovered(K)
+	ended := vsymNowNS()
+	// let everything that may still be pending happen (drain loops, timers)
+	vsymAdvance(int64(2 * t3))
+	on1, on2 := 0, 0
+	for _, w := range v.tr.writes {
+		if len(w.bytes) < 14 || w.bytes[9] != 0 || w.bytes[10] != sys[0] || w.bytes[11] != sys[1] || w.bytes[12] != sys[2] || w.bytes[13] != sys[3] {
+			continue
+		}
+		if w.conn == net.Conn(c1) {
+			on1++
+		} else if c2 != nil && w.conn == net.Conn(c2) {
+			on2++
+		}
+	}
+	vsymAssert(on1+on2 <= 1, "frame-transmitted-at-most-once")
+	vsymAssert(!crossWrite, "no-write-on-generation-2-for-a-transaction-registered-on-generation-1")
+	if queuedOn1AtSwitch > 0 {
+		vsymAssert(on2 == 0, "frame-queued-on-generation-1-never-written-on-generation-2")
+	}
+	switch {
+	case on1 == 1:
+		vsymReach("old-generation")
+		if kind == 0 {
+			vsymAssert(reply == nil && errors.Is(err, ErrConnClosed), "send-on-the-ended-generation-gets-the-closed-error-not-the-later-reply")
+			vsymAssert(ended < int64(t3), "ended-promptly-not-at-T3")
+		}
+	case on2 == 1:
+		vsymReach("new-generation")
+		// the call bound itself to generation 2 (it had not picked a generation before the switch)
+		vsymAssert(kind != 2 || len(e1.sendCh) == 0, "not-both-queued-on-1-and-written-on-2")
+	default:
+		vsymReach("not-sent")
+		if kind != 2 {
+			vsymAssert(err != nil && reply == nil, "unsent-synchronous-send-reports-an-error")
+		}
+	}
+	if kind == 0 {
+		vsymAssert((reply == nil) != (err == nil), "reply-xor-error")
+	}
+	vsymAssert(e1.replies.len() == 0, "old-generation-registry-empty")
+	vsymAssert(v.c.Metrics().DataMsgInflightCount() == 0, "inflight-gauge-zero")
+	if e := v.c.cur.Load(); e != nil && e != e1 {
+		e.teardown(time.Second)
+		_ = e.wait()
+	}
+	e1.teardown(time.Second)
+	_ = e1.wait()
 }
